@@ -1,6 +1,7 @@
 package main
 
 import (
+	"crypto/md5"
 	"encoding/binary"
 	"encoding/hex"
 	"fmt"
@@ -469,7 +470,19 @@ func (s *Sys) exec1(toks []string) string {
 					}
 					bs = append(bs, strings.Join(os, ","))
 				}
-				wb = fmt.Sprintf("%d:%s", s.cfg.Flush, strings.Join(bs, "|"))
+				// and an MD5 over every operation in order (kind, key, value): the byte stream the
+				// model computes (PhysCommit.commit_bops)
+				hsh := md5.New()
+				for _, w := range s.hooks.writes {
+					for _, o := range w {
+						if o.del {
+							fmt.Fprintf(hsh, "d%x;", o.k)
+						} else {
+							fmt.Fprintf(hsh, "s%x=%x;", o.k, o.v)
+						}
+					}
+				}
+				wb = fmt.Sprintf("%d:%s#%x", s.cfg.Flush, strings.Join(bs, "|"), hsh.Sum(nil))
 			}
 			s.hooks.writes = nil
 			if err != nil {
